@@ -47,8 +47,9 @@ func (st *State) callBuiltin(fr *Frame, bi *ssa.Builtin, args []Value, site ssa.
 			panic(st.unsupported(fmt.Sprintf("cap of %T", v)))
 		})
 	case "append":
-		return st.doAppend(args[0], args[1], site)
+		return st.doAppend(st.demux(args[0]), st.demux(args[1]), site)
 	case "copy":
+		args[0], args[1] = st.demux(args[0]), st.demux(args[1])
 		dst, ok := args[0].(Slice)
 		if !ok {
 			panic(st.unsupported(fmt.Sprintf("copy into %T", args[0])))
@@ -317,26 +318,9 @@ func (st *State) schedule() {
 		st.leakCheck()
 		panic(pathEnd{"return"})
 	}
+	st.addOblig("deadlock", "all goroutines are blocked", st.b.False)
 	st.flushObligs()
-	cf := CertainFailure{Kind: "deadlock", Msg: "all goroutines are blocked", Pos: st.where(), Model: st.model}
-	st.fillInputs(&cf)
-	st.res.CertainFail = append(st.res.CertainFail, cf)
 	panic(pathEnd{"deadlock"})
-}
-
-func (st *State) fillInputs(cf *CertainFailure) {
-	if cf.Model == nil {
-		if ok, m := st.feasible(st.b.True); ok && m != nil {
-			cf.Model = m
-		}
-	}
-	if cf.Model != nil {
-		cf.Inputs = map[string]uint64{}
-		ev := term.NewEvaluator(cf.Model)
-		for _, iv := range st.inputVars {
-			cf.Inputs[iv.ID] = ev.Eval(iv.Node)
-		}
-	}
 }
 
 // leakCheck runs once the harness has returned and every goroutine that could
@@ -353,10 +337,8 @@ func (st *State) leakCheck() {
 				st.res.Notes = append(st.res.Notes, msg)
 				continue
 			}
+			st.addObligAt("leak", msg, st.b.False, g.goSite)
 			st.flushObligs()
-			cf := CertainFailure{Kind: "leak", Msg: msg, Pos: g.goSite, Model: st.model}
-			st.fillInputs(&cf)
-			st.res.CertainFail = append(st.res.CertainFail, cf)
 		}
 	}
 }
@@ -593,27 +575,6 @@ func init() {
 			c := a[0].(*term.Node)
 			msg := st.argStr(a[1])
 			st.res.Asserts++
-			if c == st.b.False {
-				if st.spec != nil {
-					panic(specAbort{"failing assertion in speculation"})
-				}
-				st.flushObligs()
-				cf := CertainFailure{Kind: "assert", Msg: msg, Pos: st.callerPos(), Model: st.model}
-				if st.model == nil {
-					if ok, m := st.feasible(st.b.True); ok && m != nil {
-						cf.Model = m
-					}
-				}
-				if cf.Model != nil {
-					cf.Inputs = map[string]uint64{}
-					ev := term.NewEvaluator(cf.Model)
-					for _, iv := range st.inputVars {
-						cf.Inputs[iv.ID] = ev.Eval(iv.Node)
-					}
-				}
-				st.res.CertainFail = append(st.res.CertainFail, cf)
-				return nil
-			}
 			st.addObligAt("assert", msg, c, st.callerPos())
 			return nil
 		},
